@@ -104,10 +104,22 @@ def _case(draw, shard):
                 major, minor, normal, t, eps = draw(_row_params())
                 ref, alt = draw(_counts())
                 rows.append(dict(mutation_id="m%d" % m, sample_id="s%d" % s, ref_counts=ref, alt_counts=alt, major_cn=major, minor_cn=minor, normal_cn=normal, tumour_content=t, error_rate=eps))
+        c["clusters"] = None
+        if n >= 1 and dims >= 2 and draw(st.integers(0, 4)) == 0:
+            # a mutation that is homozygously deleted (major_cn 0) in one sample only: the loader documents that such
+            # rows, and then the mutation as a whole, are dropped - the run goes ahead on the remaining mutations
+            for s in range(dims):
+                major, minor, normal, t, eps = draw(_row_params())
+                ref, alt = draw(_counts())
+                if s == 0:
+                    major, minor = 0, 0
+                rows.insert(draw(st.integers(0, len(rows))), dict(mutation_id="mdel", sample_id="s%d" % s, ref_counts=ref, alt_counts=alt, major_cn=major, minor_cn=minor, normal_cn=normal, tumour_content=t, error_rate=eps))
+            c["partly_deleted"] = True
         c["rows"] = rows
         c["density"] = draw(st.sampled_from(["beta-binomial", "binomial"]))
         c["precision"] = draw(st.sampled_from([400.0, 1.0, 1e4]))
-        c["clusters"] = {"m%d" % m: draw(st.integers(0, 2)) for m in range(n)} if draw(st.sampled_from([False, True])) else None
+        if not c.get("partly_deleted"):
+            c["clusters"] = {"m%d" % m: draw(st.integers(0, 2)) for m in range(n)} if draw(st.sampled_from([False, True])) else None
     else:
         c["values"] = draw(gen.st_values_spec(regimes=("moderate", "spiky", "flat", "ties", "wide")))
     return c
@@ -223,4 +235,6 @@ def evaluate(case):
         classes.append("grid>=1000(fft path)")
     if case["kind"] == "chain" and case.get("rare_gamma_zero_at") is not None and getattr(rng, "injected", 0):
         classes.append("rare-draw-injected:gamma=0")
+    if case.get("partly_deleted"):
+        classes.append("input-with-mutation-deleted-in-one-sample")
     return Outcome(nontrivial=case["n"] >= 2 and len(bounds) > 0, classes=tuple(classes), info={k: v for k, v in case.items() if k not in ("rows", "values")}, weight=len(trace))
